@@ -1,0 +1,28 @@
+// SPDX-FileCopyrightText: (C) 2024 Intel Corporation
+// SPDX-License-Identifier: Apache 2.0
+
+//go:build verif
+
+package serviceinfo
+
+// SimYield, when set by a deterministic-simulation harness, is called at
+// every point where the chunking pipeline is about to block or has just been
+// woken up, so that the harness decides which goroutine proceeds. It is only
+// compiled in with the "verif" build tag.
+var SimYield func(site string)
+
+// SimOrder, when set, may reorder a list whose order would otherwise come
+// from Go's randomized map iteration (the devmod module list).
+var SimOrder func(names []string)
+
+func simYield(site string) {
+	if f := SimYield; f != nil {
+		f(site)
+	}
+}
+
+func simOrder(names []string) {
+	if f := SimOrder; f != nil {
+		f(names)
+	}
+}
